@@ -29,7 +29,13 @@ func init() {
 		RequiredCounters: []string{"rejections_expected_and_observed", "acceptances_expected_and_observed", "reference_verifier_decisions", "shape_errors_expected_and_observed"},
 		Assumptions:      []string{"a random forgery verifying and hash collisions are treated as impossible", "honest tuples come from the library's prover; their acceptance by the reference verifier is checked first"},
 		Plan: func(tier string) []Child {
-			return shards(pick(tier, 12, 16), Child{Flavour: "plain", NCPU: 1})
+			out := shards(pick(tier, 12, 16), Child{Flavour: "plain", NCPU: 1})
+			for i := range out {
+				if i%4 == 1 {
+					out[i].NCPU = []int{3, 5, 7, 6}[(i/4)%4] // the shards with the 1025-opening base see several CPUs
+				}
+			}
+			return out
 		},
 		Run: runC02,
 	})
